@@ -5,6 +5,8 @@ CONSTANTS
   Dims = {"cpu", "memory"}
   Requests = {}
   CycleCheck = TRUE
-INVARIANT WellFormed
+\* property invariants are listed as CONSTRAINTs (before Report): a recorded state that violates one is not
+\* explored further, so its segment never reaches SegDone (= rejected) while TLC goes on with the other segments
+CONSTRAINT WellFormed
 CONSTRAINT Report
 CHECK_DEADLOCK FALSE
